@@ -16,9 +16,10 @@ RULE = ('designs of strata S1, S1x, S2, S3, S4, S5, S6 (quick: fixed core + seed
 ASSUMPTIONS = ['reference model vt/ref.py (documented semantics; readings where under-specified)',
                'random.randrange is RandomGen\'s only source of nondeterminism (one schedule is replayed twice per design and must reproduce)']
 BUDGET_S = {'quick': 90, 'thorough': 600}
-STRATA = ['S1', 'S1x', 'S2', 'S3', 'S4', 'S5', 'S6']
-QUICK_CAPS = dsw.QUICK_CAPS
+STRATA = ['S1', 'S1x', 'S2', 'S2s', 'S3', 'S4', 'S5', 'S6']
+QUICK_CAPS = dsw.QUICK_CAPS_BIG
 MODE = 'sound'
+DEV = {'quick': 1, 'thorough': 2}
 
 
 def items(tier, seed):
@@ -27,16 +28,32 @@ def items(tier, seed):
 
 def run_item(item, mode=None):
     mode = mode or MODE
-    c, sk = dsw.setup(item['spec'], item['tier'])
+    c, sk = dsw.setup(item['spec'], item['tier'], fallback_checker=(mode == 'sound'))
     if sk:
         return sk
     sig = dict(c.sig, gen='rnd')
-    info = rnd.explore_candidates(c, item['tier'])
-    if info.get('exception') is not None:
-        return core.skip('RandomGen raises %s (C08)' % type(info['exception']).__name__)
-    ex = info['ex']
-    if not ex.complete:
-        return core.skip('candidate tree larger than CAP')
+    if c.ref is not None:
+        info = rnd.explore_candidates(c, item['tier'])
+        if info.get('exception') is not None:
+            return core.skip('RandomGen raises %s (C08)' % type(info['exception']).__name__)
+        ex = info['ex']
+    if c.ref is None or not ex.complete:
+        if mode != 'sound':
+            return core.skip('candidate tree larger than CAP')
+        # too large for the full tree: every schedule within DEV deviations of the default (all-zero) draw sequence, accepted
+        # candidates judged by the reference set or the single-sequence membership oracle
+        info = rnd.explore_candidates(c, item['tier'], bound=DEV[item['tier']])
+        if info.get('exception') is not None:
+            return core.skip('RandomGen raises %s (C08)' % type(info['exception']).__name__)
+        ex = info['ex']
+        acc = info['accepted']
+        ok, bad = dsw.all_valid(c, list(acc))
+        outcome = [ex.executions, sum(acc.values()), info['rejected'], 'bounded']
+        if not ok:
+            return core.bad(core.viol('invalid_sequence_accepted', dict(sig, bounded=True), design=dsw.brief(c.spec), invalid_example=bad),
+                            states=ex.executions, transitions=ex.choice_points + 1, nontrivial=True, outcome=outcome)
+        return core.ok(states=ex.executions, transitions=ex.choice_points + 1, validated=sum(acc.values()), nontrivial=sum(acc.values()) >= 2,
+                       outcome=outcome, bounded=True)
     acc = info['accepted']
     viols = []
     if info['error']:
@@ -68,6 +85,10 @@ def run_item(item, mode=None):
         return core.bad(viols, states=ex.executions, transitions=ex.choice_points + 1, nontrivial=nt, outcome=outcome)
     return core.ok(states=ex.executions, transitions=ex.choice_points + 1, validated=sum(acc.values()), nontrivial=nt, outcome=outcome,
                    max_depth=ex.max_depth)
+
+
+def finalize(items_, results, tier):
+    return {'designs_explored_with_deviation_bound_only': sum(1 for r in results if r.get('bounded'))}
 
 
 sample_of = dsw.sample_of
